@@ -339,7 +339,8 @@ theorem sv_auth_cookie (s : Server RealWorld Inst) (user : Bytes) (hs : s.state 
     (∃ m w1 c1, handle real s (cookieAuthLine user) =
         ⟨{ s with world := w1, cur := some (lit "DBUS_COOKIE_SHA1", .cookie c1), state := .waitingForData },
           [wData ++ AuthServer.hexlify m], .ok, some (lit "DBUS_COOKIE_SHA1", .challenge m), false⟩ ∧
-        RealGood w1 (.cookie c1) ∧ w1.cfg = s.world.cfg) := by
+        RealGood w1 (.cookie c1) ∧ w1.cfg = s.world.cfg ∧
+        (user ≠ [] ∧ AuthServer.isAscii user = true ∧ cookieStep s.world CookieSt.init (some user) = (w1, c1, .challenge m))) := by
   have a3 : AuthServer.utf8Valid (lit "AUTH") = true := by decide
   have a4 : AuthServer.parseCmd (lit "AUTH") = .auth := by decide
   by_cases hu : user = []
@@ -380,13 +381,13 @@ theorem sv_auth_cookie (s : Server RealWorld Inst) (user : Bytes) (hs : s.state 
         intro h
         have := (AuthServer.cookieStep_accept _ _ _ h).1
         cases this
-      generalize cookieStep s.world CookieSt.init (some user) = r at hsafe hcfg hnacc
+      generalize hr0 : cookieStep s.world CookieSt.init (some user) = r at hsafe hcfg hnacc
       obtain ⟨w1, c1, o⟩ := r
       cases o with
       | accept => exact absurd rfl hnacc
       | challenge m =>
         right
-        exact ⟨m, w1, c1, rfl, hsafe.2 (by simp), hcfg⟩
+        exact ⟨m, w1, c1, rfl, hsafe.2 (by simp), hcfg, hu, trivial, rfl⟩
       | reject =>
         left
         obtain ⟨w', hw'⟩ := Option.isSome_iff_exists.1 (AuthServer.cancel_cookie_isSome w1 c1 hsafe.1)
